@@ -65,15 +65,61 @@ fn stage_valid(s: &Stage) -> bool {
 	}
 }
 
+/// independent slippy-map reference for "the tile box a geographic bbox maps to at zoom z" (written from the
+/// documented rule: fractional tile position, 1e-6 tile rounding guard inwards, clamped to the level, never empty) –
+/// NOT `TileBBox::from_geo`, which is code under test
+fn ref_tile_box(z: u8, g: &[f64; 4]) -> (u32, u32, u32, u32) {
+	let n = 2.0f64.powi(z as i32);
+	let fx = |lon: f64| n * (lon / 360.0 + 0.5);
+	let fy = |lat: f64| n * (0.5 - 0.5 * (lat * std::f64::consts::PI / 360.0 + std::f64::consts::PI / 4.0).tan().ln() / std::f64::consts::PI);
+	let clamp = |v: f64| v.min(n - 1.0).max(0.0) as u32;
+	let x0 = clamp((fx(g[0]) + 1e-6).floor());
+	let y0 = clamp((fy(g[3]) + 1e-6).floor());
+	let x1 = clamp((fx(g[2]) - 1e-6).floor());
+	let y1 = clamp((fy(g[1]) - 1e-6).floor());
+	(x0, y0, x1.max(x0), y1.max(y0))
+}
+
 fn stage_keeps(s: &Stage, c: &TileCoord3) -> bool {
 	match s {
 		Stage::Zoom(a, b, _) => a.map_or(true, |v| v <= c.z as i64) && b.map_or(true, |v| c.z as i64 <= v),
-		Stage::BBox(g) => match TileBBox::from_geo(c.z, &GeoBBox(g[0], g[1], g[2], g[3])) {
-			Ok(b) => b.contains3(c),
-			Err(_) => false,
-		},
+		Stage::BBox(g) => {
+			let (x0, y0, x1, y1) = ref_tile_box(c.z, g);
+			c.x >= x0 && c.x <= x1 && c.y >= y0 && c.y <= y1
+		}
 		Stage::BBoxArity => false,
 	}
+}
+
+/// a geographic box whose edges sit on, or a hair (0, 1e-9 … 1e-5 tiles) beside, a tile border of zoom 1–10
+fn near_border_geo(rng: &mut Rng) -> String {
+	let z = rng.range(1, 10) as i32;
+	let n = 2.0f64.powi(z);
+	let size = 1u64 << z;
+	let x0 = rng.below(size);
+	let y0 = rng.below(size);
+	let x1 = (x0 + rng.below(3)).min(size - 1);
+	let y1 = (y0 + rng.below(3)).min(size - 1);
+	let deltas = [0.0, 0.0, 1e-9, -1e-9, 1e-7, -1e-7, 5e-7, -5e-7, 9.9e-7, -9.9e-7, 1.01e-6, -1.01e-6, 2e-6, -2e-6, 1e-5, -1e-5];
+	let lon = |xf: f64| (xf / n - 0.5) * 360.0;
+	let lat = |yf: f64| (std::f64::consts::PI * (1.0 - 2.0 * yf / n)).sinh().atan() * 180.0 / std::f64::consts::PI;
+	let mut g = [
+		lon(x0 as f64 + *rng.pick(&deltas)),
+		lat((y1 + 1) as f64 + *rng.pick(&deltas)),
+		lon((x1 + 1) as f64 + *rng.pick(&deltas)),
+		lat(y0 as f64 + *rng.pick(&deltas)),
+	];
+	g[0] = g[0].clamp(-180.0, 180.0);
+	g[2] = g[2].clamp(-180.0, 180.0);
+	g[1] = g[1].clamp(-90.0, 90.0);
+	g[3] = g[3].clamp(-90.0, 90.0);
+	if g[0] > g[2] {
+		g[2] = g[0]
+	}
+	if g[1] > g[3] {
+		g[3] = g[1]
+	}
+	format!("B{}:{}:{}:{}", g[0].to_bits(), g[1].to_bits(), g[2].to_bits(), g[3].to_bits())
 }
 
 fn bad_geo(rng: &mut Rng) -> String {
@@ -336,6 +382,16 @@ pub fn run(args: &Args) {
 		}
 		let coords = coord_list(&mut rng, &specs, wi % 2 == 0);
 		let coords_s = coords.iter().map(|c| format!("{},{},{}", c.x, c.y, c.z)).collect::<Vec<_>>().join(";");
+		// all coordinates of zoom <= 5 (borders of zoom 1-10 boxes project onto borders of the coarser levels)
+		let mut coords_near: Vec<TileCoord3> = vec![];
+		for z in 0..=5u8 {
+			for y in 0..(1u32 << z) {
+				for x in 0..(1u32 << z) {
+					coords_near.push(TileCoord3::new(x, y, z).unwrap());
+				}
+			}
+		}
+		let coords_near_s = coords_near.iter().map(|c| format!("{},{},{}", c.x, c.y, c.z)).collect::<Vec<_>>().join(";");
 		// the battery of invalid arguments, each alone on a valid source: must be `Err`, never `Ok`, never a panic
 		if wi % 3 == 0 {
 			for bad in ["Bx", "Bx0", "Bx1", "Bx5", "Bx8", "Bxr", "Bxt", "Bxn", "Bxs", "Zx:n", "Zxf:n", "Zxn:n", "Zxe:n", "Zn:xf", "Zn:xn", "Z256:n", "Zn:300"] {
@@ -359,6 +415,18 @@ pub fn run(args: &Args) {
 				for zf in ["Z32:n", "Z31:n", "Zn:30"] {
 					run_in_world(&rt, &mut out, &mut id, &w, "C09", "S", &format!("L0,{zf}"), &boxes_arg(&boxes));
 				}
+			}
+		}
+		// filter_bbox with edges on / a hair beside tile borders, over from_debug (a tile everywhere) and over source 0:
+		// lookups at all coordinates of zoom <= 4 plus the tiles around the box at its own zoom
+		for _ in 0..args.n(4, 12) {
+			let g = near_border_geo(&mut rng);
+			out.count("near_border_bbox");
+			for base in ["D1", "L0"] {
+				let rpn = format!("{base},{g}");
+				check_chain(&rt, &mut out, &w, &rpn, &coords_near);
+				run_in_world(&rt, &mut out, &mut id, &w, "C09", "P", &rpn, "");
+				run_in_world(&rt, &mut out, &mut id, &w, "C09", "G", &rpn, &coords_near_s);
 			}
 		}
 		// chains over from_debug (a tile at every coordinate of the pyramid: every filter boundary is visible)
